@@ -4,26 +4,44 @@ from wt_common import WT_LEAN, WT_TRUST, wt_engine, e2e_engine, E2E_TRUST
 PROP = {
     "generated": [],
     "lean_modules": WT_LEAN + ["SwimVerif.Proofs.UplinkFlow", "SwimVerif.Proofs.ValueSampling",
-                               "SwimVerif.Model.ValueLane", "SwimVerif.Proofs.ValueLane"],
+                               "SwimVerif.Model.ValueLane", "SwimVerif.Proofs.ValueLane",
+                               "SwimVerif.Proofs.MonoSample", "SwimVerif.Proofs.ValueCompose",
+                               "SwimVerif.Proofs.ValueComposeDefs", "SwimVerif.Proofs.ValueComposeInv",
+                               "SwimVerif.Proofs.ValueComposeStep", "SwimVerif.Proofs.ValueComposeFinal"],
     "engines": [
         e2e_engine("C01"),
         wt_engine("C01"),
         {"name": "vl", "crate": "core", "bin": "sv-vl", "machine": "vl",
          "cases": {"quick": 4000, "thorough": 400000}, "min_shard": 1000},
     ],
-    "level_text": "Proof, in two layers. Runtime: for every registry and every interleaving of lane events (any "
+    "level_text": "Proof, in three layers. Runtime: for every registry and every interleaving of lane events (any "
                   "lanes), link messages and write completions on a remote's uplink queue in which lane l is a value "
                   "lane that stays linked: what is sent for l is an in-order subsequence of what was pushed (values "
                   "skipped, never invented/duplicated/reordered), the newest value is never lost, and when no write "
                   "is in flight the last value delivered is the newest pushed. Agent: for every set/sync/write "
                   "sequence the lane writes only values it held, each the current one, and a clean lane has "
-                  "published its current value. Both layers are tied to the real code (WriteTaskState/Uplinks and "
-                  "ValueLane::write_to_buffer) by differential execution; the monitor checks ordered sampling and "
-                  "freshness at quiescence on implementation traces.",
-    "level_note": "The composition agent loop (dirty_items / item_writers hand-back) + byte pipe + runtime under the "
-                  "real tokio scheduler is not in a theorem: it is sampled by the end-to-end rig where present; the "
-                  "two layers are proved separately.",
+                  "published its current value. Composition (Proofs/ValueCompose.lean, built from the two models "
+                  "only): the lane feeding, through its output pipe (a FIFO of frames, arbitrary delay), the uplink "
+                  "queues of any number of remotes, for every interleaving of set / sync request / agent write / "
+                  "pipe transfer of one frame (broadcast to linked remotes, sync frames targeted with implicit link) "
+                  "/ link / write completion, and every remote that is never unlinked: the values it is delivered "
+                  "are a monotone index sampling of the values the lane held (initial value, then every set; "
+                  "positions never go backwards; a strict subsequence of the sets if the remote never syncs — the "
+                  "strict form for syncing remotes is refuted: a sync answer re-sends the value of the last event), "
+                  "at every moment the queue delivered / in flight / buffered / in the pipe / unsent ends with the "
+                  "current value, and at quiescence (lane clean, no sync pending, pipe empty, no write in flight) the "
+                  "last value delivered is the lane's current value if a set happened after it linked or it synced. "
+                  "Both models are tied to the real code (WriteTaskState/Uplinks and ValueLane::write_to_buffer) by "
+                  "differential execution; the monitor checks ordered sampling and freshness at quiescence on "
+                  "implementation traces.",
+    "level_note": "The composed theorems are about the composition of the two tied models; that the real agent loop "
+                  "(dirty_items / item_writers hand-back: `write` happens only when the lane's writer is available) "
+                  "and the real write task realise exactly these steps under the tokio scheduler is sampled by the "
+                  "end-to-end rig, not proved. Remotes that are unlinked / detached and linked again are outside the "
+                  "composed theorems.",
     "trusted_base": COMMON_TRUST + WT_TRUST + E2E_TRUST,
     "assumptions": ["the remote stays linked to the lane (no unlinked for it) in the sampling/freshness theorems",
+                    "composition: every remote id is an attached remote; one frame per pipe transfer; values are "
+                    "numbers encoded as one-element bodies (injective)",
                     "one WriteTaskEvent / one lane operation at a time (single task each)"],
 }
